@@ -305,6 +305,11 @@ func (r *runner) peer(st Step) {
 			default:
 				parts = append(parts, fmt.Sprintf(`{"jsonrpc":"2\u002e0","\u0069d":%s,"r\u0065sult":%q}`, id, tag))
 			}
+		case "replynull": // a success reply that spells out "error":null (some servers always emit both members): the result - or,
+			// for an implementation that takes "both members present" literally, an invalid-response error - but nothing else
+			parts = append(parts, fmt.Sprintf(`{"jsonrpc":"2.0","id":%s,"result":%q,"error":null}`, id, tag))
+			abs = append(abs, map[string]any{"t": "reply", "id": id, "err": false, "tag": tag})
+			a = map[string]any{"t": "bad", "id": id, "err": false, "tag": tag}
 		case "strid": // a reply whose id is the STRING spelling of a number we use: a different id, it answers nothing
 			parts = append(parts, fmt.Sprintf(`{"jsonrpc":"2.0","id":"%s","result":%q}`, id, tag))
 		case "bad":
